@@ -87,13 +87,15 @@ TDtUse == AccEv("dt_use") /\ DtUse(E.t) /\ UNCHANGED mname
 TRgLen == AccEv("rg_len") /\ RgLen(E.t) /\ step'.v = E.val /\ UNCHANGED mname
 TRgAdd == AccEv("rg_add") /\ RgAdd(E.t) /\ step'.v = E.val /\ UNCHANGED mname
 TLcpUse == AccEv("lcp_use") /\ LcpUse(E.t) /\ UNCHANGED mname
+\* look-up and addNewEntry are one hook line
+TSpFind == /\ l <= Len(Tr) /\ E.e = "Acc" /\ E.site = "sp_add" /\ pc[E.t] = "sp_find" /\ SpFind(E.t) /\ UNCHANGED <<l, mname, prog>>
 TSpAdd == AccEv("sp_add") /\ SpAdd(E.t) /\ cur[E.t].x = E.x /\ cur[E.t].p = PoolName(E.obj) /\ step'.v = E.val /\ UNCHANGED mname
 TGpc == AccEv("gpc") /\ GpCache(E.t, Op("GPC", 0, "", 1)) /\ step'.v = E.val /\ UNCHANGED mname
 TGpu == AccEv("gpu") /\ E.val = 1 /\ GpUri(E.t, Op("GPU", 0, "", 0)) /\ UNCHANGED mname
 
 TInit == Init /\ l = 1 /\ mname = [m \in 1..MaxMutex |-> ""] /\ TLCSet(7, 1)
 TNext == /\ (TLockFirst \/ TSpConst \/ TLockLater \/ TUnlock \/ TGrGot \/ TSpgGet \/ TGrFast \/ TGrSlow \/ TGrBuild \/ TGrPub
-             \/ TMapAlloc \/ TMapDone \/ TGrUse \/ TCiRead \/ TCiIncr \/ TDtUse \/ TRgLen \/ TRgAdd \/ TLcpUse \/ TSpAdd \/ TGpc \/ TGpu)
+             \/ TMapAlloc \/ TMapDone \/ TGrUse \/ TCiRead \/ TCiIncr \/ TDtUse \/ TRgLen \/ TRgAdd \/ TLcpUse \/ TSpFind \/ TSpAdd \/ TGpc \/ TGpu)
          /\ (l' > TLCGet(7) => TLCSet(7, l'))
 TSpec == TInit /\ [][TNext]_tvars
 Accepted == /\ PrintT(<<"TRACE-RESULT", TLCGet(7) - 1, Len(Tr)>>)
